@@ -12,7 +12,7 @@ of matrices + `shape` + `eps_zero`, an ensemble a list of states + a `Multinomia
 
 The model mirrors the code *as it is*: product orders, nested-loop outcome layouts, reported shapes,
 the `eps_zero` truncation / renormalisation of `_compose_qoperations_MProcess_State_for_States`
-(including that post states are divided by the *renormalised* probability), zero-probability post
+(post states are divided by the raw, un-renormalised probability), zero-probability post
 states, the zero-distribution branch, `truncate_and_normalize`, the right-to-left fold of a chain.
 
 Not modelled: the physicality verdicts inside the object constructors (C01), `mode_sampling=True`
@@ -45,14 +45,10 @@ def povmMProcess [Add K] [Mul K] [Zero K] (vecs : List (Vec K n)) (hss : List (M
     List (Vec K n) :=
   hss.flatMap fun hs => vecs.map fun v => hs.transpose.mulVec v
 
-/-- `_compose_qoperations_MProcess_MProcess` as coded:
-`for hs2 in elem2.hss: for hs1 in elem1.hss: hs2 @ hs1` (reported shape `shape1 + shape2`). -/
+/-- `_compose_qoperations_MProcess_MProcess` ("elem1 after elem2"):
+`for hs2 in elem2.hss: for hs1 in elem1.hss: hs1 @ hs2`, reported shape `shape2 + shape1`
+(earlier outcome = slow index, as for StateEnsemble). -/
 def mpMp [Add K] [Mul K] [Zero K] (hss1 hss2 : List (Mat K n n)) : List (Mat K n n) :=
-  hss2.flatMap fun hs2 => hss1.map fun hs1 => hs2.mul hs1
-
-/-- what composition "elem1 after elem2" has to be (used only in theorems / proposed patch):
-`for hs2: for hs1: hs1 @ hs2`, reported shape `shape2 + shape1`. -/
-def mpMpFixed [Add K] [Mul K] [Zero K] (hss1 hss2 : List (Mat K n n)) : List (Mat K n n) :=
   hss2.flatMap fun hs2 => hss1.map fun hs1 => hs1.mul hs2
 
 /-- `MProcess.to_povm`: `[sqrt(dim) * hs[0] for hs in hss]` -/
@@ -93,7 +89,8 @@ def forStates [Add K] [Mul K] [Zero K] [Div K] [LE K] [DecidableLE K] [Decidable
   let ps0 := raw.map fun p => if w * p ≤ eps then 0 else p
   let s := lsum ps0
   let ps1 := if trunc && !decide (s = 0) then ps0.map (· / s) else ps0
-  let states := (mx.zip ps1).map fun (r, p) => if p = 0 then Vec.zero else vdiv r p
+  -- `ps_raw = list(ps)` is taken before the renormalisation: each post state is divided by its own raw probability
+  let states := (mx.zip ps0).map fun (r, p) => if p = 0 then Vec.zero else vdiv r p
   (states, ps1.map fun p => w * p)
 
 end kernels
@@ -112,9 +109,9 @@ def dictAppend [DecidableEq K] (dct : List (K × List (Mat K d d))) (key : K) (P
     List (K × List (Mat K d d)) :=
   dct.map fun e => if e.1 = key then (e.1, e.2 ++ [P]) else e
 
-/-- the loop `for eigenval, eigenvec in zip(eigenvals, eigenvecs)`: `eigenvecs` is the matrix returned by
-`np.linalg.eigh`, and iterating it yields its **rows**; `P = row rowᵀ` (`np.dot(np.array([v]).T, np.array([v]))`,
-no conjugate — the model covers real eigenvector matrices). -/
+/-- the loop `for eigenval, eigenvec in zip(eigenvals, eigenvecs.T)`: the eigenvectors are the **columns** of the
+matrix returned by `np.linalg.eigh`; `P = np.outer(v, v.conj())` (the model covers real eigenvector matrices, where
+the conjugate is the identity). -/
 def mode1Loop [Mul K] [DecidableEq K] :
     List (K × Vec K d) → Option K → List (K × List (Mat K d d)) → List (K × List (Mat K d d))
   | [], _, dct => dct
@@ -123,9 +120,9 @@ def mode1Loop [Mul K] [DecidableEq K] :
     let dct' := if prev = some ev then dictAppend dct ev P else dictSet dct ev [P]
     mode1Loop rest (some ev) dct'
 
-/-- rows of the eigenvector matrix, as `zip(eigenvals, eigenvecs)` pairs them with the eigenvalues -/
+/-- columns of the eigenvector matrix, as `zip(eigenvals, eigenvecs.T)` pairs them with the eigenvalues -/
 def mode1Pairs (eigvals : List K) (U : Mat K d d) : List (K × Vec K d) :=
-  eigvals.zip U.toList
+  eigvals.zip U.transpose.toList
 
 /-- `reduce(add, Ps)` for each key -/
 def mode1Groups [Add K] [Mul K] [Zero K] [DecidableEq K] (eigvals : List K) (U : Mat K d d) :
@@ -253,7 +250,7 @@ def compose {n : Nat} [NeZero n] (c : Cfg) : QOp n → QOp n → Except Err (QOp
   | .mprocess s1 shape _ hss, .gate s2 b =>
       if s1 ≠ s2 then .error .sys else mkMProcess s1 shape eps8 (hss.map fun hs => hs.mul b)
   | .mprocess s1 sh1 _ hss1, .mprocess s2 sh2 _ hss2 =>
-      if s1 ≠ s2 then .error .sys else mkMProcess s1 (sh1 ++ sh2) eps8 (mpMp hss1 hss2)
+      if s1 ≠ s2 then .error .sys else mkMProcess s1 (sh2 ++ sh1) eps8 (mpMp hss1 hss2)
   | .gate s1 a, .state s2 v => if s1 ≠ s2 then .error .sys else .ok (.state s1 (a.mulVec v))
   | .gate s1 a, .ensemble s2 states d _ =>
       -- per state: compose_qoperations(gate, state) (system check there); eps_zero falls back to 1e-8
